@@ -95,3 +95,73 @@ Example self_consistent_tenth_grid :
                     (sf_arange (ofZ SFNum (-3)) (sf_div sf_one (ofZ SFNum 10)) 8) = Ok p
             /\ self_consistent SFNum p = true.
 Proof. apply sc_check_sound. vm_compute. reflexivity. Qed.
+
+(* ------------------------------------------------------------------ *)
+(* The cache key is (trial data state id, x0 / x1) only.  If the manifold
+   function (or anything it closes over: eventdata, kwargs) changes while the
+   state id and the grid cell stay the same, a hit returns the parametrisation
+   of the OLD function.  Witness: F0 = 0, F1 = 1 on the grid 1, 2, 3, ... at
+   x = 2.5 -- the object answers 0 for F1. *)
+Definition wit_g : gdesc (T := sf) := {| g_lb := sf_one; g_delta := sf_one; g_dec := 0 |}.
+Definition wit_F0 : manifold (T := sf) := fun _ _ _ _ => sf_zero.
+Definition wit_F1 : manifold (T := sf) := fun _ _ _ _ => sf_one.
+Definition wit_xs : list sf := [sf_div (ofZ SFNum 5) (ofZ SFNum 2)].
+Definition wit_idxs : list (nat * nat) := [(0, 0)%nat].
+
+Definition stale_lin_check : bool :=
+  match lin_call SFNum wit_g wit_F0 wit_idxs None 1 wit_xs with
+  | Ok (_, _, st) =>
+    match lin_call SFNum wit_g wit_F1 wit_idxs st 1 wit_xs, lin_call SFNum wit_g wit_F1 wit_idxs None 1 wit_xs with
+    | Ok (v, _, _), Ok (vf, _, _) =>
+        match v, vf with
+        | [a], [b] => sf_same a sf_zero && sf_same b sf_one
+        | _, _ => false
+        end
+    | _, _ => false
+    end
+  | Err _ => false
+  end.
+Definition stale_par_check : bool :=
+  match par_call SFNum wit_g wit_F0 wit_idxs None 1 wit_xs with
+  | Ok (_, _, st) =>
+    match par_call SFNum wit_g wit_F1 wit_idxs st 1 wit_xs, par_call SFNum wit_g wit_F1 wit_idxs None 1 wit_xs with
+    | Ok (v, _, _), Ok (vf, _, _) =>
+        match v, vf with
+        | [a], [b] => sf_same a sf_zero && sf_same b sf_one
+        | _, _ => false
+        end
+    | _, _ => false
+    end
+  | Err _ => false
+  end.
+Lemma stale_checks_true : stale_lin_check = true /\ stale_par_check = true.
+Proof. split; vm_compute; reflexivity. Qed.
+
+Theorem cache_key_omits_function_refuted :
+  (exists v0 g0 st v gr st' vf gf stf,
+     lin_call SFNum wit_g wit_F0 wit_idxs None 1 wit_xs = Ok (v0, g0, st) /\
+     lin_call SFNum wit_g wit_F1 wit_idxs st 1 wit_xs = Ok (v, gr, st') /\
+     lin_call SFNum wit_g wit_F1 wit_idxs None 1 wit_xs = Ok (vf, gf, stf) /\
+     v = [sf_zero] /\ vf = [sf_one]) /\
+  (exists v0 g0 st v gr st' vf gf stf,
+     par_call SFNum wit_g wit_F0 wit_idxs None 1 wit_xs = Ok (v0, g0, st) /\
+     par_call SFNum wit_g wit_F1 wit_idxs st 1 wit_xs = Ok (v, gr, st') /\
+     par_call SFNum wit_g wit_F1 wit_idxs None 1 wit_xs = Ok (vf, gf, stf) /\
+     v = [sf_zero] /\ vf = [sf_one]).
+Proof.
+  destruct stale_checks_true as [HL HP]. split.
+  - unfold stale_lin_check in HL.
+    destruct (lin_call SFNum wit_g wit_F0 wit_idxs None 1 wit_xs) as [[[v0 g0] st]|]; [|discriminate].
+    destruct (lin_call SFNum wit_g wit_F1 wit_idxs st 1 wit_xs) as [[[v gr] st']|]; [|discriminate].
+    destruct (lin_call SFNum wit_g wit_F1 wit_idxs None 1 wit_xs) as [[[vf gf] stf]|]; [|discriminate].
+    destruct v as [|a [|? ?]]; try discriminate. destruct vf as [|b [|? ?]]; try discriminate.
+    apply andb_prop in HL. destruct HL as [Ha Hb]. apply sf_same_eq in Ha. apply sf_same_eq in Hb. subst.
+    do 9 eexists. repeat split; reflexivity.
+  - unfold stale_par_check in HP.
+    destruct (par_call SFNum wit_g wit_F0 wit_idxs None 1 wit_xs) as [[[v0 g0] st]|]; [|discriminate].
+    destruct (par_call SFNum wit_g wit_F1 wit_idxs st 1 wit_xs) as [[[v gr] st']|]; [|discriminate].
+    destruct (par_call SFNum wit_g wit_F1 wit_idxs None 1 wit_xs) as [[[vf gf] stf]|]; [|discriminate].
+    destruct v as [|a [|? ?]]; try discriminate. destruct vf as [|b [|? ?]]; try discriminate.
+    apply andb_prop in HP. destruct HP as [Ha Hb]. apply sf_same_eq in Ha. apply sf_same_eq in Hb. subst.
+    do 9 eexists. repeat split; reflexivity.
+Qed.
